@@ -724,3 +724,7 @@ def run(ctx):
     rule_c(ctx)
     rule_d(ctx)
     rule_e(ctx)
+    # obligations shared with a sibling property (evaluated by the owning module, reported here under letter x)
+    from engine.rulelib import share as _share
+    _share(ctx, 'C17', 'rule_a', 'x', 'frames of rejected early data are discarded for good: a re-queued STOP_SENDING makes the peer report Opened/Stopped for a stream nobody used')
+
